@@ -500,9 +500,20 @@ def run(ctx):
         budget = 120000 if tier == "quick" else 900000
         tfile = os.path.join(ctx.dir("trace"), "h6.ndjson")
         run_probe(ctx, probe, sample, "trace", trace=tfile, fuel="40")
-        lines = open(tfile).read().splitlines() if os.path.exists(tfile) else []
+        raw = open(tfile, errors="replace").read().splitlines() if os.path.exists(tfile) else []
+        lines, torn = [], 0
+        for ln in raw:          # a worker that an input killed may leave a torn last line: drop what is not an event
+            try:
+                if isinstance(json.loads(ln), dict):
+                    lines.append(ln)
+                    continue
+            except ValueError:
+                pass
+            torn += 1
         if not lines:
             raise InfraError("hook H6 produced no events")
+        if torn:
+            log("C09: %d torn trace lines dropped (worker killed by its input while writing)" % torn)
         if len(lines) > budget:       # cut at a parse boundary
             k = budget
             while k > 0 and '"parse_begin"' not in lines[k]:
